@@ -119,6 +119,9 @@ def check(tier):
                 'grammar g;\n@left <e = a bc>;\n@right <e = ab c>;\n@none <e = abc>;\n' + rules_,
                 'grammar g;\n@left <ea = b>;\n@right <e = abc>;\n' + rules_,
                 'grammar g;\n' + rules_ + '@right <e = ab c> "x";\n@left "y" <e = a bc>;\n',
+                # terminals that stand in a directive and in no rule body (a defined token, a literal): they are handles all the same
+                'grammar g;\nNUM = /[0-9]+/\nUNUSED = "u"\n@left "+" "-"\n@right "^" UNUSED\nstart = e;\ne = e "+" e | e "^" e | NUM;\n',
+                'grammar g;\nONLYHERE = "oh";\n@none ONLYHERE "never";\n@left "x";\n' + rules_,
                 # a handle restated inside ONE level (a level is a set: the directive grammar allows it and it is recorded once)
                 'grammar g;\n@left "x" "y" <e = a bc> "x";\n' + rules_,
                 'grammar g;\nNUM = /[0-9]+/;\n@none NUM "x" NUM;\n@left <e = abc> "y" <e = abc>;\nn = NUM;\n' + rules_]
